@@ -50,19 +50,19 @@ theorem cleanList_congr (rest : List String)
       cleanList fields rest xs = cleanList fields' rest xs := by
   intro xs
   induction xs with
-  | nil => intro _; simp [cleanList]
+  | nil => intro _; simp [cleanList_nil]
   | cons x xs ihx =>
     intro h
     simp only [List.all_cons, Bool.and_eq_true] at h
     cases x with
     | obj v =>
       have h1 : TypedAt rest v = true := h.1
-      simp only [cleanList, ih v h1, ihx h.2]
-    | null => simp only [cleanList, ihx h.2]
-    | bool _ => simp only [cleanList, ihx h.2]
-    | num _ => simp only [cleanList, ihx h.2]
-    | str _ => simp only [cleanList, ihx h.2]
-    | arr _ => simp only [cleanList, ihx h.2]
+      simp only [cleanList_obj, ih v h1, ihx h.2]
+    | null => rw [cleanList_nonMap _ _ _ _ (fun _ => J.noConfusion), cleanList_nonMap _ _ _ _ (fun _ => J.noConfusion), ihx h.2]
+    | bool _ => rw [cleanList_nonMap _ _ _ _ (fun _ => J.noConfusion), cleanList_nonMap _ _ _ _ (fun _ => J.noConfusion), ihx h.2]
+    | num _ => rw [cleanList_nonMap _ _ _ _ (fun _ => J.noConfusion), cleanList_nonMap _ _ _ _ (fun _ => J.noConfusion), ihx h.2]
+    | str _ => rw [cleanList_nonMap _ _ _ _ (fun _ => J.noConfusion), cleanList_nonMap _ _ _ _ (fun _ => J.noConfusion), ihx h.2]
+    | arr _ => rw [cleanList_nonMap _ _ _ _ (fun _ => J.noConfusion), cleanList_nonMap _ _ _ _ (fun _ => J.noConfusion), ihx h.2]
 
 theorem clean_congr (hperm : fields.Perm fields') (hkeys : DistinctTypes fields) :
     ∀ (path : List String) (payload : List (String × J)), TypedAt path payload = true →
@@ -72,10 +72,10 @@ theorem clean_congr (hperm : fields.Perm fields') (hkeys : DistinctTypes fields)
   | nil =>
     intro payload h
     obtain ⟨tn, htn⟩ := typedAt_nil h
-    rw [clean, clean, C13_scrub_type_order_irrelevant payload tn htn hperm hkeys]
+    rw [clean_nil, clean_nil, C13_scrub_type_order_irrelevant payload tn htn hperm hkeys]
   | cons p rest ih =>
     intro payload h
-    rw [clean, clean]
+    rw [clean_cons, clean_cons]
     unfold TypedAt at h
     cases hl : J.lookup p payload with
     | none => rfl
@@ -184,7 +184,7 @@ theorem clean_cons_obj {fields : List (String × List String)} {p : String} {res
     {payload v : List (String × J)} (hl : J.lookup p payload = some (.obj v)) :
     (clean fields (p :: rest) payload).1 = J.eraseKey p payload ∨
     (clean fields (p :: rest) payload).1 = J.setKey p (.obj (clean fields rest v).1) payload := by
-  rw [clean, hl]
+  rw [clean_cons, hl]
   simp only
   split
   · exact .inl rfl
@@ -195,7 +195,7 @@ theorem clean_cons_arr {fields : List (String × List String)} {p : String} {res
     {payload : List (String × J)} {xs : List J} (hl : J.lookup p payload = some (.arr xs)) :
     (clean fields (p :: rest) payload).1 = J.eraseKey p payload ∨
     (clean fields (p :: rest) payload).1 = J.setKey p (.arr (cleanList fields rest xs).1) payload := by
-  rw [clean, hl]
+  rw [clean_cons, hl]
   simp only
   generalize (if xs.isEmpty = true then false else (cleanList fields rest xs).2) = b
   cases b
@@ -207,7 +207,7 @@ theorem clean_cons_other {fields : List (String × List String)} {p : String} {r
     {payload : List (String × J)} {o : J} (hl : J.lookup p payload = some o)
     (ho : ∀ v, o ≠ .obj v) (ha : ∀ xs, o ≠ .arr xs) :
     (clean fields (p :: rest) payload).1 = J.setKey p o payload := by
-  rw [clean, hl]
+  rw [clean_cons, hl]
   cases o with
   | obj v => exact absurd rfl (ho v)
   | arr xs => exact absurd rfl (ha xs)
@@ -219,7 +219,7 @@ theorem clean_cons_other {fields : List (String × List String)} {p : String} {r
 theorem clean_cons_none {fields : List (String × List String)} {p : String} {rest : List String}
     {payload : List (String × J)} (hl : J.lookup p payload = none) :
     (clean fields (p :: rest) payload).1 = payload := by
-  rw [clean, hl]
+  rw [clean_cons, hl]
 
 theorem cleanList_typed (fields : List (String × List String)) (rest1 rest2 : List String)
     (ih : ∀ v, TypedAt rest2 v = true → TypedAt rest2 (clean fields rest1 v).1 = true) :
@@ -227,20 +227,20 @@ theorem cleanList_typed (fields : List (String × List String)) (rest1 rest2 : L
       ((cleanList fields rest1 xs).1.all (fun x => match x with | .obj v => TypedAt rest2 v | _ => true)) = true := by
   intro xs
   induction xs with
-  | nil => intro _; simp [cleanList]
+  | nil => intro _; simp [cleanList_nil]
   | cons x xs ihx =>
     intro h
     simp only [List.all_cons, Bool.and_eq_true] at h
     cases x with
     | obj v =>
       have h1 : TypedAt rest2 v = true := h.1
-      simp only [cleanList, List.all_cons, Bool.and_eq_true]
+      simp only [cleanList_obj, List.all_cons, Bool.and_eq_true]
       exact ⟨ih v h1, ihx h.2⟩
-    | null => simp only [cleanList, List.all_cons, Bool.and_eq_true]; exact ⟨trivial, ihx h.2⟩
-    | bool _ => simp only [cleanList, List.all_cons, Bool.and_eq_true]; exact ⟨trivial, ihx h.2⟩
-    | num _ => simp only [cleanList, List.all_cons, Bool.and_eq_true]; exact ⟨trivial, ihx h.2⟩
-    | str _ => simp only [cleanList, List.all_cons, Bool.and_eq_true]; exact ⟨trivial, ihx h.2⟩
-    | arr _ => simp only [cleanList, List.all_cons, Bool.and_eq_true]; exact ⟨trivial, ihx h.2⟩
+    | null => rw [cleanList_nonMap _ _ _ _ (fun _ => J.noConfusion)]; simp only [List.all_cons, Bool.and_eq_true]; exact ⟨trivial, ihx h.2⟩
+    | bool _ => rw [cleanList_nonMap _ _ _ _ (fun _ => J.noConfusion)]; simp only [List.all_cons, Bool.and_eq_true]; exact ⟨trivial, ihx h.2⟩
+    | num _ => rw [cleanList_nonMap _ _ _ _ (fun _ => J.noConfusion)]; simp only [List.all_cons, Bool.and_eq_true]; exact ⟨trivial, ihx h.2⟩
+    | str _ => rw [cleanList_nonMap _ _ _ _ (fun _ => J.noConfusion)]; simp only [List.all_cons, Bool.and_eq_true]; exact ⟨trivial, ihx h.2⟩
+    | arr _ => rw [cleanList_nonMap _ _ _ _ (fun _ => J.noConfusion)]; simp only [List.all_cons, Bool.and_eq_true]; exact ⟨trivial, ihx h.2⟩
 
 /-- **Cleaning one path keeps every OTHER path typed**: `clean` deletes helper fields at the end of
     its own path and may remove emptied parents — both only shrink what another path reaches; an
@@ -256,7 +256,7 @@ theorem typedAt_clean (fields : List (String × List String)) :
     cases path2 with
     | nil => exact absurd rfl hne
     | cons q rest2 =>
-      rw [clean]
+      rw [clean_nil]
       rcases lookup_cleanHere q payload fields with h' | h'
       · exact typedAt_cons_none h'
       · rw [typedAt_cons_congr h']; exact h
